@@ -10,8 +10,10 @@ MAX_LEN = 65536
 DICT = "abixml.dict"
 SECONDS = {"quick": 60, "thorough": 1200}
 RULE = ("libFuzzer (in-process, ASan + UBSan, 14 forked jobs from a seed corpus + 2 from an empty corpus) on bytes -> "
-        "xml_reader::read_corpus_from_input -> (when a corpus results) write_corpus and a self compute_diff + report. Seeds: "
-        "abidw output for small generated C / C++ libraries and the smaller documents of tests/data/test-read-write. A "
+        "xml_reader::read_corpus_from_input (or read_translation_unit_from_istream / read_corpus_group_from_native_xml when the "
+        "root element is abi-instr / abi-corpus-group) -> (when a corpus results) write_corpus and a self compute_diff + report. Seeds: "
+        "abidw output for small generated C / C++ libraries and the smaller documents of tests/data/test-read-write, plus a stand-alone abi-instr and an "
+        "abi-corpus-group form of the generated ones. A "
         "structure-aware custom mutator replaces attribute values (dictionary values, other values of the same document such "
         "as other type ids, doubled values, numbers), deletes / duplicates / moves element lines, and falls back to byte "
         "mutation; a dictionary of element and attribute names is supplied. ABG_ASSERT is overridden so that an assertion at a "
@@ -46,6 +48,16 @@ def make_seeds(dst, tier, seedv):
                 if r.rc == 0:
                     open(os.path.join(dst, "gen-%s-%d.abi" % (name, len(opts))), "wb").write(r.out)
                     n += 1
+                    if not opts:
+                        # the two other root elements the tools accept: a stand-alone translation unit (abi-instr) and a
+                        # corpus group
+                        i, j = r.out.find(b"<abi-instr"), r.out.find(b"</abi-instr>")
+                        if 0 <= i < j:
+                            open(os.path.join(dst, "gen-%s-tu.abi" % name), "wb").write(r.out[i:j + 12] + b"\n")
+                            n += 1
+                        open(os.path.join(dst, "gen-%s-group.abi" % name), "wb").write(
+                            b"<abi-corpus-group version='2.1'>\n" + r.out + b"</abi-corpus-group>\n")
+                        n += 1
     return n
 
 
